@@ -202,8 +202,11 @@ fn judge_mesh(pts: &[Point3], faces: &[[u32; 3]], case: &Case, l: &mut Local) {
         }
     }
     // ---- patch boundary loops: on consistently wound meshes they use every boundary edge exactly once
-    let consistent = directed.values().all(|c| *c == 1) && !r.nonmanifold && bcount.values().all(|c| *c <= 2);
-    if consistent && !r.boundary.is_empty() {
+    // (where a vertex carries more than two boundary edges the loops of one patch may be ambiguous: there an
+    // error is acceptable, a set of loops that drops or repeats a boundary edge is not)
+    let wound = directed.values().all(|c| *c == 1) && !r.nonmanifold;
+    let pinched = !bcount.values().all(|c| *c <= 2);
+    if wound && !r.boundary.is_empty() {
         let (runs, outs, _capped) = explore_choices(MAX_DEV, EXEC_CAP, || {
             verif::set_budget(budget * 4);
             let res = guarded(|| mesh.get_patch_boundary_points().map_err(|e| e.to_string()));
@@ -234,9 +237,11 @@ fn judge_mesh(pts: &[Point3], faces: &[[u32; 3]], case: &Case, l: &mut Local) {
         });
         l.evals_n(runs as u64);
         l.transitions += runs as u64;
-        l.bucket("patch boundary loops on a consistently wound mesh");
+        l.bucket(if pinched { "patch boundary loops on a consistently wound mesh pinched at a vertex" } else { "patch boundary loops on a consistently wound mesh" });
         for (o, script) in outs.iter() {
-            l.check("patch boundary loops use every boundary edge exactly once", "", o == "OK", mk, || format!("{:?}: {} (script {:?})", faces, o, script));
+            l.outcome(hash_of(&(pinched, o.starts_with("OK"), o.starts_with("ERR"), 3u8)));
+            let fine = o == "OK" || (pinched && o.starts_with("ERR"));
+            l.check("patch boundary loops use every boundary edge exactly once", if pinched { "pinched" } else { "" }, fine, mk, || format!("{:?}: {} (script {:?})", faces, o, script));
         }
     }
     // ---- patch boundaries terminate
@@ -605,7 +610,7 @@ pub fn run(tier: Tier) -> i32 {
     let mut cx = Ctx::new("C12", tier, "model_checking");
     cx.rule = "inputs: every list of <= 4 oriented triangles over 5 vertices and <= 4 (thorough: 5) over 6 vertices (thorough: also <= 3 over 7) (all small disks, fans, bow-ties, pillows, flipped and non-manifold configurations), 10 structured meshes each also with every single face flipped, every subset of <= 5 cells of a 2x2x3 voxel block (subsets of <= 3 also shifted to straddle the origin), every ordered list of <= 4 directed pairs over 5 indices, box and cylinder generators; environment: for every mesh / voxel set all hash-map and hash-set traversal orders are choice points answered by the explorer (all permutations up to 4 elements, rotations and reversals beyond), explored exhaustively up to 2 departures from the default order; termination decided by tick budgets 10*3F+100. distinct = distinct inputs".into();
     cx.bounds = json!({"max_deviations": MAX_DEV, "execution_cap_per_input": EXEC_CAP, "faces_v5": 4, "faces_v6": tier.pick(4, 5), "faces_v7": tier.pick(0, 3), "pair_list_len": 4});
-    cx.require(&["patch boundary loops on a consistently wound mesh", "edge shared by more than two faces", "closed mesh", "mesh with boundary", "inconsistent winding", "vertex with more than two boundary edges", "structured mesh", "structured mesh with one face flipped", "voxel set with several clusters", "voxel set with one cluster", "path or cycle input", "branching input", "box generator", "cylinder generator"]);
+    cx.require(&["patch boundary loops on a consistently wound mesh", "patch boundary loops on a consistently wound mesh pinched at a vertex", "edge shared by more than two faces", "closed mesh", "mesh with boundary", "inconsistent winding", "vertex with more than two boundary edges", "structured mesh", "structured mesh with one face flipped", "voxel set with several clusters", "voxel set with one cluster", "path or cycle input", "branching input", "box generator", "cylinder generator"]);
     cx.assume("iteration orders beyond 4 elements are represented by rotations and reversals of the sorted order; at most 2 non-default traversals per execution");
     let cs = cases(tier);
     let l = sweep(&cs, judge);
